@@ -1126,3 +1126,88 @@ func TestC19_History(t *testing.T) {
 		return c
 	}, execC19Seq)
 }
+
+// C07 with a slow correlator: the forwarded logins of a framed record equal
+// those of the direct hand-over also when the login consumer is busy for
+// seconds (longer than any timeout an implementation might put on a record).
+type c07SlowCase struct {
+	M       sshdMsg `json:"m"`
+	DelayMs int     `json:"delay_ms"`
+}
+
+func execC07Slow(c c07SlowCase) Outcome {
+	run := func(framed bool) sshdResult {
+		rec := &Rec{}
+		logins := make(chan common.RemoteUserLogin) // unbuffered, as in the daemon
+		mp := metrics.NewPrometheusMetricsProviderForRegisterer(prometheus.NewRegistry())
+		ctx, cancel := context.WithCancel(context.Background())
+		defer cancel()
+		proc := sshd.NewSshdProcessor(ctx, logins, vhNode, vhMachineID, newWriter(rec), mp)
+		done := make(chan error, 1)
+		go func() {
+			if framed {
+				sli := syslog.NewSyslogIngester("", proc, namedpipe.NamedPipeIngester{})
+				done <- sli.Process(ctx, c.M.PID+" "+c.M.Msg+"\n")
+			} else {
+				done <- proc.ProcessSshdLogEntry(ctx, sshd.SshdLogEntry{PID: c.M.PID, Message: c.M.Msg})
+			}
+		}()
+		r := sshdResult{}
+		// the correlator is busy for a while before it takes the login
+		time.Sleep(time.Duration(c.DelayMs) * time.Millisecond)
+		select {
+		case l := <-logins:
+			r.Logins = append(r.Logins, fmt.Sprintf("pid=%d cred=%q src=%s", l.PID, l.CredUserID, canonEvent(l.Source)))
+		case err := <-done:
+			done <- err
+		case <-time.After(3 * time.Second):
+		}
+		select {
+		case err := <-done:
+			if err != nil {
+				r.Err = err.Error()
+			}
+		case <-time.After(10 * time.Second):
+			r.Err = "processing did not return"
+		}
+		for _, e := range rec.Events() {
+			r.Events = append(r.Events, canonEvent(e.Ev))
+		}
+		return r
+	}
+	var direct, framed sshdResult
+	var wg sync.WaitGroup
+	wg.Add(2)
+	go func() { defer wg.Done(); direct = run(false) }()
+	go func() { defer wg.Done(); framed = run(true) }()
+	wg.Wait()
+	if df := direct.diff(framed); df != "" {
+		return fail("form %s with a login consumer busy for %d ms: framed delivery differs from direct hand-over:\n%s", c.M.Form, c.DelayMs, df)
+	}
+	return Outcome{NT: true, Labels: []string{fmt.Sprintf("delay_ms:%d", c.DelayMs)}}
+}
+
+func TestC07_SlowConsumer(t *testing.T) {
+	delays := []int{1200, 2500}
+	if thorough() {
+		delays = []int{1200, 2500, 5600}
+	}
+	si, sn := shard()
+	n := 0
+	RunEnum(t, "c07.slow_consumer", func(y func(c07SlowCase) bool) {
+		for _, d := range delays {
+			for _, msg := range []string{
+				"Accepted password for slow from 10.1.1.1 port 22 ssh2",
+				"Accepted publickey for slow from fe80::1%eth0 port 22 ssh2: ED25519-CERT SHA256:YI+caZKJCNaXgsD0NvRZ2fLaEeF46cEVyadru/SL76o ID a b (serial 7) CA ED25519 SHA256:Pcs5TWfcOSKb7Rw/XyvHfUcaQzmw6HtLrjUoyXuzIj8",
+			} {
+				n++
+				if n%sn != si {
+					continue
+				}
+				if !y(c07SlowCase{M: sshdMsg{Form: "accepted", PID: "4242", Msg: msg, Accepted: true}, DelayMs: d}) {
+					return
+				}
+			}
+		}
+	}, execC07Slow)
+}
